@@ -143,6 +143,7 @@ pub fn check(c: &Case, seams_open: bool) -> CheckResult {
     }
     o.class_if(sharp && hw_dev >= 1.5, "join-visible");
     o.class_if(reversal, "reversal");
+    o.class_if(smax(&c.xf) >= 1000.0, "ctm-scale>=1000");
     o.class_if(exact_retrace && c.style.join == 1 && hw_dev >= 1.5, "exact-retrace-with-round-join");
     o.class_if(hw_dev >= 1.5 && c.style.cap != 0 && polys.iter().any(|p| !p.closed), "cap-visible");
     Ok(o)
@@ -289,9 +290,11 @@ pub fn strategy() -> BoxedStrategy<Case> {
             let ext = w.max(h) as f32;
             let width = prop_oneof![6 => 0.3f32..12.0, 1 => Just(1.0f32), 1 => prop::sample::select(vec![0.0f32, -1.0, f32::NAN])];
             let miter = prop_oneof![2 => Just(10.0f32), 1 => Just(4.0f32), 2 => 0.0f32..12.0, 1 => Just(1.4142135f32), 1 => Just(2.0f32)];
-            (Just((w, h)), stroke_path(ext * 0.8, curves), width, 0u8..3, 0u8..3, miter, stroke_xf(curves))
+            // zoom: the same picture in user units `zoom` times smaller under a CTM `zoom` times larger
+            let zoom = prop_oneof![12 => Just(1.0f32), 1 => Just(4096.0f32), 1 => Just(65536.0f32), 1 => Just(1.0f32 / 64.0)];
+            (Just((w, h)), stroke_path(ext * 0.8, curves), width, 0u8..3, 0u8..3, miter, stroke_xf(curves), zoom)
         })
-        .prop_map(|((w, h), path, width, cap, join, miter, xf)| {
+        .prop_map(|((w, h), path, width, cap, join, miter, xf, zoom)| {
             // keep the stroke's device extent reasonable: scale x width
             let mut width = width;
             let s = smax(&xf) as f32;
@@ -307,6 +310,22 @@ pub fn strategy() -> BoxedStrategy<Case> {
                 let r = min_curvature_radius(&path);
                 if (width as f64) > 0.8 * r {
                     width = (0.8 * r) as f32;
+                }
+            }
+            let (mut path, mut width, mut xf) = (path, width, xf);
+            if zoom != 1.0 {
+                for op in path.ops.iter_mut() {
+                    *op = match *op {
+                        POp::M(x, y) => POp::M(x / zoom, y / zoom),
+                        POp::L(x, y) => POp::L(x / zoom, y / zoom),
+                        POp::Q(a, b, x, y) => POp::Q(a / zoom, b / zoom, x / zoom, y / zoom),
+                        POp::C(a, b, c, d, x, y) => POp::C(a / zoom, b / zoom, c / zoom, d / zoom, x / zoom, y / zoom),
+                        POp::Z => POp::Z,
+                    };
+                }
+                width /= zoom;
+                for v in xf.iter_mut().take(4) {
+                    *v *= zoom;
                 }
             }
             Case { w, h, path, style: StyleSpec { width: Fl(width), cap, join, miter: Fl(miter), dash: vec![], offset: Fl(0.0) }, xf }
@@ -364,7 +383,7 @@ pub fn property(ctx: &Ctx) -> Property {
     let seams_open = ctx.excluded(SEAM_KEY);
     Property {
         id: "C04",
-        rule: "cases: 1-3 subpaths built by turtle steps (turning angles uniform, 0/45/90/135/180 degrees, within 1 degree of 0/180, and exact retraces to the previous point; segment lengths 0.25..14 px plus exact duplicate points), open or closed, or quadratic/cubic subpaths (curve class), widths 0.3..12 plus 0, -1 and NaN, all 3 caps x 3 joins, miter limits 0..12 incl. sqrt2, 2, 4, 10, transforms identity / translation / rotation x uniform scale 0.3-4 / anisotropic (condition <= 20, curves <= 4) / shear, white on transparent 24..40 px surfaces. part wide: polylines of 2-4 segments of 8..60 px through a vertex on the surface, device widths 30..110 px, turning angles mostly 0.2..6 degrees of either sign (also 0, general, near 180), open or closed, all caps/joins, identity or rotation x scale; same oracle (a join wedge of a shallow bend is only wider than the margin when the stroke is this wide). Oracle: union of convex pieces built from the statement (segment rectangles; round sector / bevel triangle / miter quadrilateral or bevel by the miter-limit test on the outer side of every interior and closing vertex; caps at both ends of open subpaths) in user space, exact membership through the inverse transform, union boundary sampled at 1/16 px; a pixel whose whole area is more than the margin (0.5 px polylines, 1 px curves) inside must be exactly 0xffffffff, more than the margin outside exactly 0; width <= 0 or NaN paints nothing. Non-trivial: >=1 must-paint and >=1 must-stay pixel; distinct by hash of the case.",
+        rule: "cases: 1-3 subpaths built by turtle steps (turning angles uniform, 0/45/90/135/180 degrees, within 1 degree of 0/180, and exact retraces to the previous point; segment lengths 0.25..14 px plus exact duplicate points), open or closed, or quadratic/cubic subpaths (curve class), widths 0.3..12 plus 0, -1 and NaN, all 3 caps x 3 joins, miter limits 0..12 incl. sqrt2, 2, 4, 10, transforms identity / translation / rotation x uniform scale 0.3-4 / anisotropic (condition <= 20, curves <= 4) / shear, optionally with user space zoomed (units 4096 or 65536 times smaller, or 64 times larger, under a correspondingly scaled CTM), white on transparent 24..40 px surfaces. part wide: polylines of 2-4 segments of 8..60 px through a vertex on the surface, device widths 30..110 px, turning angles mostly 0.2..6 degrees of either sign (also 0, general, near 180), open or closed, all caps/joins, identity or rotation x scale; same oracle (a join wedge of a shallow bend is only wider than the margin when the stroke is this wide). Oracle: union of convex pieces built from the statement (segment rectangles; round sector / bevel triangle / miter quadrilateral or bevel by the miter-limit test on the outer side of every interior and closing vertex; caps at both ends of open subpaths) in user space, exact membership through the inverse transform, union boundary sampled at 1/16 px; a pixel whose whole area is more than the margin (0.5 px polylines, 1 px curves) inside must be exactly 0xffffffff, more than the margin outside exactly 0; width <= 0 or NaN paints nothing. Non-trivial: >=1 must-paint and >=1 must-stay pixel; distinct by hash of the case.",
         assumptions: vec![
             "a band of margin + half a pixel diagonal + 1/32 px around the region boundary is not judged",
             "threshold decisions (miter limit within 1e-3, turning angle within 1e-3 of 0/180 degrees) are taken the smaller way for 'must paint' and the larger way for 'must stay'",
@@ -380,6 +399,7 @@ pub fn property(ctx: &Ctx) -> Property {
             ("region", "width<=0-or-nan", 0.03),
             ("region", "exact-retrace-with-round-join", 0.01),
             ("region", "xf:general", 0.1),
+            ("region", "ctm-scale>=1000", 0.05),
         ],
         panic_is_violation: false,
     }
